@@ -72,8 +72,8 @@ func SchedPlan(t *testing.T, tier string) *h.Plan {
 	quick := tier != "thorough"
 	p := &h.Plan{
 		Prop: "C08", Level: "exploration", Engine: "sched",
-		Runs:     pick(quick, 12000, 2000000),
-		Budget:   pick(quick, 40*time.Second, 12*time.Minute),
+		Runs:     pick(quick, 80000, 20000000),
+		Budget:   pick(quick, 25*time.Second, 12*time.Minute),
 		Gen:      h.GenC08,
 		Minimise: true,
 		ExtraShrink: ShrinkSched,
